@@ -1,5 +1,6 @@
 import BctVerif.Lemmas.SignedNull
 import BctVerif.Lemmas.SignedTotal
+import BctVerif.Lemmas.SignedCorr
 
 /-!
 # C06 — signed null models keep each node's positive/negative degree and all weights
@@ -10,9 +11,12 @@ matrix, every list of random draws and every `argsort` oracle.  The function vie
 `AMat.toFun`; `rowPos/rowNeg/colPos/colNeg` count positive / negative cells of a row (out-degree)
 or column (in-degree); `posMS/negMS/cellsMS` are the multisets of positive / negative / all cells.
 
-The strength correlations returned by the null models are not the subject of a theorem: the model
-prints the exact covariance and variances of the ± strength sequences of its own `Wc`, `W0`, and
-the check compares `cov / sqrt(var·var)` with the value bct returned (1e-9).
+Strength correlations: the driver prints, for the model's own `Wc` (diagonal-cleared input) and `W0`,
+`corrTriples Wc W0`.  `corr_ingredients` and `cov_triple_formula` state what these integers are: for each
+of `rpos_in, rpos_ou, rneg_in, rneg_ou` the triple `(N·Σxy − Σx·Σy, N·Σx² − (Σx)², N·Σy² − (Σy)²)` of the
+positive / negative in- / out-strength sequences x of the input and y of the output, i.e. N² times their
+covariance and variances; Pearson's r = first / sqrt(second · third) is computed from them by the check
+and compared with the value bct returned (1e-9).  The square root / division is not a Lean statement.
 -/
 namespace Bct.C06
 open Bct Bct.Signed
@@ -113,6 +117,34 @@ theorem run_signed_no_index_error (und : Bool) (R : AMat Int n) (itr : Nat) (ds 
     run und R itr ds ≠ .error .index :=
   run_no_index und R itr ds
 
+/-- The four triples the model prints for the null models are the covariance / variance ingredients of
+the positive and negative in-strength (column sums) and out-strength (row sums) sequences of the
+diagonal-cleared input `W` and of the output `W0`. -/
+theorem corr_ingredients (W W0 : AMat Int n) :
+    (corrTriples W W0).rpi = covTriple ((List.finRange n).map fun j => ∑ i, Signed.posPart (W.toFun i j))
+                                       ((List.finRange n).map fun j => ∑ i, Signed.posPart (W0.toFun i j)) ∧
+    (corrTriples W W0).rpo = covTriple ((List.finRange n).map fun i => ∑ j, Signed.posPart (W.toFun i j))
+                                       ((List.finRange n).map fun i => ∑ j, Signed.posPart (W0.toFun i j)) ∧
+    (corrTriples W W0).rni = covTriple ((List.finRange n).map fun j => ∑ i, Signed.negPart (W.toFun i j))
+                                       ((List.finRange n).map fun j => ∑ i, Signed.negPart (W0.toFun i j)) ∧
+    (corrTriples W W0).rno = covTriple ((List.finRange n).map fun i => ∑ j, Signed.negPart (W.toFun i j))
+                                       ((List.finRange n).map fun i => ∑ j, Signed.negPart (W0.toFun i j)) := by
+  simp only [corrTriples, inStrength, outStrength]
+  refine ⟨?_, ?_, ?_, ?_⟩ <;> congr 1 <;> apply List.map_congr_left <;> intro v _ <;>
+    first | exact colSum_eq _ _ _ | exact rowSum_eq _ _ _
+
+/-- `covTriple xs ys = (N·Σxy − Σx·Σy, N·Σx² − (Σx)², N·Σy² − (Σy)²)`: N² times the covariance of the two
+sequences and N² times their variances -/
+theorem cov_triple_formula (xs ys : List Int) :
+    covTriple xs ys =
+      ((xs.length : Int) * ((xs.zip ys).map fun p => p.1 * p.2).sum - xs.sum * ys.sum,
+       (xs.length : Int) * (xs.map fun x => x * x).sum - xs.sum * xs.sum,
+       (xs.length : Int) * (ys.map fun y => y * y).sum - ys.sum * ys.sum) :=
+  covTriple_eq xs ys
+
+/-- `Signed.posPart` / `Signed.negPart` are `W * (W > 0)` and `-W * (W < 0)` -/
+theorem pos_neg_part (x : Int) : Signed.posPart x = (if 0 < x then x else 0) ∧ Signed.negPart x = (if x < 0 then -x else 0) := ⟨rfl, rfl⟩
+
 /-- the sort used for `Wv` is an ascending sort of the same weights (as `np.sort`) -/
 theorem sortedWeights_sorted (W : AMat Int n) (s : Int) (p : Int → Bool) (triu : Bool) :
     (sortedWeights W s p triu).Pairwise (· ≤ ·) ∧
@@ -144,6 +176,8 @@ example : (nullModel false R0 0 0 [[0, 1], [1, 0]] []).toOption.map (·.W0)
     = some #v[#v[0, 2, 0, -4], #v[0, 0, 0, 0], #v[0, -1, 0, 3], #v[0, 0, 0, 0]] := by decide +kernel
 example : (nullModel true S0 0 1 [[1, 0], [0], [0, 1], [0]] [1, 0, 0, 0, 1, 0]).toOption.map (·.W0)
     = some #v[#v[0, 3, 0, -1], #v[3, 0, -4, 0], #v[0, -4, 0, 2], #v[-1, 0, 2, 0]] := by decide +kernel
+-- correlation ingredients on S0 and its null model output: r = cov / sqrt(var·var)
+example : (corrTriples S0 S0).rpi = (4, 4, 4) ∧ (corrTriples S0 S0).rni = (36, 36, 36) := by decide +kernel
 example : nullModel true R0 0 0 [] [] = .error .param := null_model_und_rejects R0 0 0 [] [] (by decide)
 
 end Bct.C06
